@@ -64,6 +64,7 @@ def run_(tier):
     V = vlib.Verdict("C10")
     mc = proto.model_check("ACV_concurrent", "ACV concurrent model (2 procs, every interleaving of the stage actions)")
     neg = proto.negative_control("SplitGenvar", ["NamesDistinctPerCompilation", "NamesGloballyDistinct"])
+    neg2 = proto.negative_control("LockAcrossDispatch", "StepsNeverWaitForOthers")
     nsched = 4 if tier == "quick" else 160
     rounds = 2 if tier == "quick" else 6
     scheds, sim = schedules(nsched, vlib.seed())
@@ -182,7 +183,7 @@ def run_(tier):
                 "both must return their solo values; distinct = distinct schedules" % (rounds, npoints),
         "race_reports": len(races),
         "samples": [{"goroutines": c["goroutines"][:4], "threads": len(c["goroutines"]), "rounds": c["rounds"]} for c in cases[:2]],
-        "checker_cmd": tr.cmd, "negative_control": "SplitGenvar -> %s" % neg.violated,
+        "checker_cmd": tr.cmd, "negative_control": "SplitGenvar -> %s; LockAcrossDispatch -> %s" % (neg.violated, neg2.violated),
         "rejected": len(rejected), "known_findings_hit": sorted(V.known_hits),
     }, time.time() - t0, violations=len(V.violations),
         assumptions=["data-race freedom of Go code is not TLA+-observable: the race detector observes the executions the "
